@@ -382,12 +382,12 @@ theorem row_sum (R C : Nat) (fill : Int) (i : Nat) : ∀ (es : List (Idx × Int)
 
 
 /-- pruning does not change lookups with the pruned value as default (distinct keys) -/
-theorem lookup_prune (f : Int) : ∀ (es : List (Idx × Int)), (keysOf es).Nodup → ∀ j,
+theorem lookup_prune_r (f : Int) : ∀ (es : List (Idx × Int)), (keysOf es).Nodup → ∀ j,
     lookup (pruneEntries f es) f j = lookup es f j
   | [], _, j => by simp [pruneEntries]
   | e :: es, hnd, j => by
     simp only [keysOf, List.map_cons, List.nodup_cons] at hnd
-    have ih := lookup_prune f es hnd.2 j
+    have ih := lookup_prune_r f es hnd.2 j
     unfold pruneEntries at ih ⊢
     rw [List.filter_cons]
     by_cases hv : e.2 = f
@@ -411,7 +411,7 @@ theorem lookup_rowRuns (op : Int → Int → Int) (l : List (Nat × Int)) (hs : 
     rw [List.map_map, List.nodup_iff_pairwise_ne, List.pairwise_map]
     rw [List.pairwise_map] at s1
     exact s1.imp (fun h heq => by simp only [Function.comp, List.cons.injEq, and_true] at heq; omega)
-  rw [lookup_prune d _ hnd]
+  rw [lookup_prune_r d _ hnd]
   by_cases hi : i ∈ l.map (·.1)
   · rw [if_pos hi]
     obtain ⟨g, hg, hgi⟩ := List.mem_map.mp ((s2 i).mpr hi)
@@ -612,22 +612,22 @@ end COO
 
 /-! ### lifting the 2-D core to `reduceCore` -/
 
-theorem prod_append : ∀ (a b : List Nat), prod (a ++ b) = prod a * prod b
+theorem prod_append_r : ∀ (a b : List Nat), prod (a ++ b) = prod a * prod b
   | [], b => by simp [prod]
-  | d :: a, b => by simp only [List.cons_append, prod, prod_append a b, Nat.mul_assoc]
+  | d :: a, b => by simp only [List.cons_append, prod, prod_append_r a b, Nat.mul_assoc]
 
 theorem ravel_append : ∀ (j ks : List Nat), j.length = ks.length → ∀ (u as : List Nat),
     ravel (j ++ u) (ks ++ as) = ravel j ks * prod as + ravel u as
   | [], [], _, u, as => by simp [ravel]
   | i :: is, d :: ds, h, u, as => by
-    simp only [List.cons_append, ravel, ravel_append is ds (by simpa using h) u as, prod_append,
+    simp only [List.cons_append, ravel, ravel_append is ds (by simpa using h) u as, prod_append_r,
       Nat.add_mul, Nat.mul_assoc, Nat.add_assoc]
   | [], _ :: _, h, _, _ => by simp at h
   | _ :: _, [], h, _, _ => by simp at h
 
 namespace COO
 
-theorem gather_range_self (s : List Nat) : gather s (List.range s.length) = s := by
+theorem gather_range_self_r (s : List Nat) : gather s (List.range s.length) = s := by
   apply List.ext_getElem
   · simp [gather]
   · intro i h1 h2
@@ -670,7 +670,7 @@ theorem transposeCore_facts (x : COO α) (p : List Nat) (hp : p.Perm (List.range
     (x.transposeCore p).WF ∧ SortedLin (x.transposeCore p).shape (x.transposeCore p).entries := by
   unfold transposeCore
   by_cases hid : p = List.range x.shape.length
-  · simp only [hid, if_true, gather_range_self, true_and]
+  · simp only [hid, if_true, gather_range_self_r, true_and]
     exact ⟨hwf, hs⟩
   · simp only [hid, if_false, true_and]
     have hmem : ∀ a ∈ p, a < x.shape.length := fun a ha => List.mem_range.mp (hp.mem_iff.mp ha)
@@ -678,7 +678,7 @@ theorem transposeCore_facts (x : COO α) (p : List Nat) (hp : p.Perm (List.range
     have hwfm : ∀ e ∈ mapIdx (fun i => gather i p) x.entries, InB e.1 (gather x.shape p) := by
       intro e he
       obtain ⟨e0, he0, rfl⟩ := List.mem_map.mp he
-      exact InB_gather _ _ (hwf e0 he0) p hmem
+      exact InB_gather_j _ _ (hwf e0 he0) p hmem
     have hwf' : ∀ e ∈ sortEntries (gather x.shape p) (mapIdx (fun i => gather i p) x.entries),
         InB e.1 (gather x.shape p) := fun e he => hwfm e (mem_sortEntries.mp he)
     refine ⟨hwf', ?_⟩
@@ -829,7 +829,7 @@ theorem reduceCore_lift (op : RedOp) (x : COO Int) (axes : List Nat)
   generalize x.transposeCore (kept ++ axes) = T at *
   -- reshaped to 2-D
   have hsize : prod T.shape = prod [prod (gather x.shape kept), prod (gather x.shape axes)] := by
-    rw [hTs, prod_append]; simp [prod]
+    rw [hTs, prod_append_r]; simp [prod]
   obtain ⟨hAs, hAf, hAwf⟩ := reshapeCore_facts T _ hTwf hsize
   have hAsort := reshapeCore_sorted T _ hTwf hsize hTsort
   have hAget := fun j hj => (C08.reshape_get T _ hTwf hsize j hj).1
@@ -860,7 +860,7 @@ theorem reduceCore_lift (op : RedOp) (x : COO Int) (axes : List Nat)
     rw [hlin, unravel_ravel hin]
     exact hTget _ (by rw [gather_append]; exact hin)
   · have hlen : (R1.reshapeCore (gather x.shape kept)).shape.length = kept.length := by
-      rw [hOs, gather_length]
+      rw [hOs, gather_length_j]
     by_cases hk : kept = []
     · have h0 : (R1.reshapeCore (gather x.shape kept)).shape.length = 0 := by rw [hlen, hk]; rfl
       rw [if_pos h0, if_pos hk]
